@@ -207,7 +207,8 @@ def oracle(lines, io, spec=None):
     at_boundary = (n == 20) or any(e == n for (_, _, _, e) in layout)
     torn = next((j for j, (s, he, me, e) in enumerate(layout) if he <= n < e), None)
     # a torn record is accepted by the scan when its data is not read back: validation off, or empty data
-    torn_accepted = torn is not None and (m['validate'] == 0 or fresh[torn][1] == 0)
+    # since commit 865f94b of the code a record cut by the end of the file is never accepted by the scan (finding F6, fixed)
+    torn_accepted = False
     if io[open_i] != 'open ok':
         only_blob = m['nclosed'] == 0
         tag = '[F16] ' if (m['ignore'] == 1 and only_blob and not (at_boundary and n >= 20)) else ''
